@@ -60,6 +60,8 @@ pub fn run_cpu(ch: &mut Chooser, ctx: &mut Ctx) {
     ctx.arm_poison(ch.seed64("poison.seed"), 1);
 
     let mut reference: Option<(Vec<Vec<u8>>, std::collections::BTreeMap<usize, Vec<u8>>)> = None;
+    let prim_seed = ch.seed64("cpu.primseed");
+    let mut prim_reference: Option<u64> = None;
     // all four subsets, in a seeded order
     let mut masks = [3u32, 2, 1, 0];
     let rot = ch.pick_usize("cpu.maskorder", 4);
@@ -87,7 +89,7 @@ pub fn run_cpu(ch: &mut Chooser, ctx: &mut Ctx) {
             Ok((recovery, restored))
         });
         let trace: Trace = verif::take_trace();
-        ctx.cpu_mask = u32::MAX;
+        ctx.cpu_mask = mask;
         ctx.count("cpu.masked_rounds");
         ctx.hash.feed_u64(u64::from(mask_bits));
         let (recovery, restored) = match out {
@@ -132,6 +134,27 @@ pub fn run_cpu(ch: &mut Chooser, ctx: &mut Ctx) {
             ctx.viol(&["C14"], "isa-trace", "isa/no-eval-poly".into(), "decode with a missing original did not evaluate the erasure locator through DefaultEngine".into(), false);
             return;
         }
+        // the public Engine API of DefaultEngine used directly (a foreign codec built on it), with arguments the
+        // contract permits but the crate's codecs never pass: results must not depend on the reported features either
+        let prim = ctx.guarded(false, || direct_primitives(prim_seed));
+        ctx.cpu_mask = u32::MAX;
+        match prim {
+            Ok(d) => {
+                ctx.count("cpu.direct_primitive_batches");
+                match prim_reference {
+                    None => prim_reference = Some(d),
+                    Some(d0) if d0 != d => {
+                        ctx.viol(&["C14", "C03"], "cross-engine", format!("cross/cpu-mask-primitives/{mask_bits}"), format!("direct fft/ifft/mul/eval_poly calls on DefaultEngine (seed {prim_seed}) give other bytes under reported features avx2={} ssse3={} than under the first mask", mask_bits & 1, mask_bits >> 1 & 1), false);
+                        return;
+                    }
+                    _ => {}
+                }
+            }
+            Err(msg) => {
+                ctx.viol(&["C14", "C06"], "no-panic", format!("panic/cpu-primitives/{}", panic_sig(&msg)), format!("direct primitive call on DefaultEngine under mask {mask_bits} panicked: {msg}"), false);
+                return;
+            }
+        }
         // results identical under every subset, and right
         match &reference {
             None => {
@@ -172,4 +195,76 @@ fn isa_rank(isa: usize) -> u32 {
         ISA_SSSE3 => 1,
         _ => 0,
     }
+}
+
+
+/// Seeded direct calls of the four primitives on a freshly constructed `DefaultEngine`; returns a digest of
+/// everything the contract defines (first truncated_size outputs of fft, all outputs of ifft with a zero tail,
+/// mul, eval_poly) plus the shards outside the transformed range.
+fn direct_primitives(seed: u64) -> u64 {
+    use reed_solomon_simd::engine::{DefaultEngine, Engine, ShardsRefMut, GF_ORDER};
+    let mut p = Prng::new(seed);
+    let mut h = simcore::prng::LogHash::default();
+    let engine = DefaultEngine::new();
+    for round in 0..6 {
+        let count = 1usize << (2 + p.below(4)); // 4..32 shards
+        let len64 = 1 + p.below(3) as usize;
+        let mut data = vec![[0u8; 64]; count * len64];
+        for c in &mut data {
+            p.fill(c);
+        }
+        let size = 1usize << (1 + p.below(u64::from(count.trailing_zeros())));
+        let pos = p.below((count - size) as u64 + 1) as usize;
+        let trunc = 1 + p.below(size as u64) as usize;
+        let max_skew = 65536 - size;
+        let skew = match p.below(5) {
+            0 => 0,
+            1 => pos + size,
+            2 => 1 + p.below(7) as usize,
+            3 => max_skew - p.below(3) as usize,
+            _ => p.below(max_skew as u64 + 1) as usize,
+        };
+        let is_fft = round % 2 == 0;
+        if !is_fft {
+            for c in &mut data[(pos + trunc) * len64..(pos + size) * len64] {
+                *c = [0; 64];
+            }
+        }
+        {
+            let mut view = ShardsRefMut::new(count, len64, &mut data);
+            if is_fft {
+                engine.fft(&mut view, pos, size, trunc, skew);
+            } else {
+                engine.ifft(&mut view, pos, size, trunc, skew);
+            }
+        }
+        let defined_end = if is_fft { pos + trunc } else { pos + size };
+        for (i, c) in data.iter().enumerate() {
+            let shard = i / len64;
+            if shard < pos || shard >= pos + size || shard < defined_end {
+                h.feed_bytes(c);
+            }
+        }
+        let mut x = vec![[0u8; 64]; len64];
+        for c in &mut x {
+            p.fill(c);
+        }
+        let log_m = [0u16, 65535, 65534, p.below(65536) as u16][p.below(4) as usize];
+        engine.mul(&mut x, log_m);
+        for c in &x {
+            h.feed_bytes(c);
+        }
+    }
+    // eval_poly on a seeded erasure indicator
+    let mut erasures: Box<[u16; GF_ORDER]> = vec![0u16; GF_ORDER].into_boxed_slice().try_into().unwrap();
+    let used = 2 + p.below(300) as usize;
+    for e in erasures.iter_mut().take(used) {
+        *e = u16::from(p.below(3) == 0);
+    }
+    let trunc = if p.below(2) == 0 { used } else { GF_ORDER };
+    DefaultEngine::eval_poly(&mut erasures, trunc);
+    for v in erasures.iter() {
+        h.feed_u64(u64::from(*v));
+    }
+    h.0 ^ h.1
 }
